@@ -313,6 +313,75 @@ def check_grids(chk):
     return n
 
 
+def check_region_level(chk):
+    """The spacing functions as the REGION hands them out must use the normalisation N_norm = N_norm_prefactor * ny_total everywhere:
+    (a) getSfuncFixedSpacing(method) is the constructor called with that N_norm; (b) metamorphic: for the monotonic-based functions
+    (fixed spacing, fixed perpendicular spacing, combined weights) the end gradients per index scale exactly like 1/N_norm_prefactor
+    -- 'the requested end gradients in units of the normalised index'."""
+    n = 0
+    prefs = [1.0, 0.5, 2.0]
+    from corpus import DN, nonorth
+    cfgs = [("lsn", tok("c10_region_lsn", "lsn", SN)), ("lsn_nonorth", tok("c10_region_lsn_no", "lsn", nonorth(SN)))]
+    if chk.tier != "quick":
+        cfgs.append(("udn_nonorth", tok("c10_region_udn_no", "udn", nonorth(DN))))
+    summary = {}
+    for cname, cfg in cfgs:
+        rc, res, o, e = common.run_impl_json("impl/spacing_region.py", dict(cfg=cfg, prefactors=prefs), timeout=900)
+        if res is None:
+            chk.tie_broken("impl/spacing_region.py", f"implementation run failed rc={rc}: {(o + e)[-1500:]}")
+            continue
+        base = res[str(prefs[0])]
+        for rname, fb in base.items():
+            info = fb["_info"]
+            # (a) region-level wrapper == constructor with N_norm = prefactor * ny_total, for every prefactor
+            for p in prefs:
+                fr = res[str(p)][rname]
+                for meth in ("monotonic", "sqrt"):
+                    a, b = fr.get("fixed:" + meth), fr.get("direct:" + meth)
+                    if not a or not b:
+                        continue
+                    if ("error" in a) != ("error" in b):
+                        # the wrapper additionally runs the monotonicity guard, which may refuse what the bare constructor returns
+                        if "error" in a and ("monoton" in a["error"].lower() or "decreasing" in a["error"].lower()):
+                            continue
+                        chk.fail(f"region:N_norm:fixed:{meth}:refusal-differs", "getSfuncFixedSpacing and the constructor called with N_norm = N_norm_prefactor*ny_total do not both succeed",
+                                 dict(config=cname, region=rname, prefactor=p, wrapper=a, direct=b))
+                        continue
+                    if "error" in a:
+                        continue
+                    va, vb = np.array(a["values"], dtype=float), np.array(b["values"], dtype=float)
+                    n += 1
+                    if not np.allclose(va, vb, rtol=0, atol=1e-12 * max(1.0, info["L"]), equal_nan=True):
+                        chk.fail(f"region:N_norm:fixed:{meth}", "getSfuncFixedSpacing does not hand the normalisation N_norm_prefactor*ny_total to the spacing-function constructor",
+                                 dict(config=cname, region=rname, prefactor=p, N=info["N"], ny_total=info["ny_total"], max_difference=float(np.nanmax(np.abs(va - vb)))))
+            # (b) gradient * prefactor is the same for every prefactor
+            for fname in ("fixed:monotonic", "perp:lower:sperp", "perp:upper:sperp", "perp:lower:s", "perp:upper:s", "combined:poloidal", "combined:perp"):
+                for end in ("g_lower", "g_upper"):
+                    if fname.startswith("perp:lower") and end == "g_upper" or fname.startswith("perp:upper") and end == "g_lower":
+                        pass   # the far end of a one-ended function has the requested gradient too (monotonic form): keep it
+                    vals = []
+                    for p in prefs:
+                        f = res[str(p)][rname].get(fname)
+                        if not f or "error" in f or f.get(end) is None:
+                            vals = None
+                            break
+                        vals.append(f[end] * p)
+                    if not vals:
+                        continue
+                    n += 1
+                    ref = vals[0]
+                    if abs(ref) < 1e-9:
+                        continue
+                    dev = max(abs(v / ref - 1.0) for v in vals)
+                    summary[f"{cname}:{fname}:{end}"] = max(summary.get(f"{cname}:{fname}:{end}", 0.0), float(f"{dev:.2g}"))
+                    if dev > 2e-2:
+                        chk.fail(f"region:end-gradient-not-per-normalised-index:{fname}:{end.split('_')[1]}",
+                                 "the end gradient of a region-level spacing function does not scale like 1/N_norm_prefactor: the requested spacing is not applied in units of the normalised index N_norm_prefactor*ny_total",
+                                 dict(config=cname, region=rname, kind=info["kind"], function=fname, prefactors=prefs, gradient_times_prefactor=vals))
+    chk.notes["region_level_gradient_scaling_max_dev"] = summary
+    return n
+
+
 def run(chk):
     np.seterr(all="ignore")
     tr = translate(chk)
@@ -323,6 +392,7 @@ def run(chk):
                "resolution consistency of whole grids is observed at 2e-5 m (positions go through FineContour interpolation and refinement)")
     chk.coq()
     n = check_functions(chk, tr)
+    n += check_region_level(chk)
     n += check_grids(chk)
     chk.count(evaluations=n, distinct=n)
     chk.cov["rule"] = ("direct calls of the real constructors with random (length, N, N_norm, end parameters) over all region kinds (wall.X, X.wall, X.X, wall.wall, one-ended, none; monotonic convex / "
